@@ -619,6 +619,19 @@ pub fn obs_slice_error(e: &err::packet::SliceError) -> ObsErr {
     }
 }
 
+/// The variant of `packet::SliceError` that wraps an extension-header content error names an IP
+/// version ("IPv4 extensions" / "IPv6 extensions"): it must be the version of the IP header the
+/// failing extension header belongs to. Returns a description if it is not.
+pub fn exts_variant_mismatch(e: &err::packet::SliceError, r: &RefOut) -> Option<String> {
+    use err::packet::SliceError::*;
+    let has = |k: LK| r.layers.iter().any(|l| l.kind == k);
+    match e {
+        Ipv4Exts(_) if !has(LK::Ipv4) => Some(format!("{:?} is reported as an IPv4 extension error but the packet has no IPv4 header (layers {})", e, r.layer_names())),
+        Ipv6Exts(_) if !has(LK::Ipv6) => Some(format!("{:?} is reported as an IPv6 extension error but the packet has no IPv6 header (layers {})", e, r.layer_names())),
+        _ => None,
+    }
+}
+
 /// Does the observed error belong to the same *fault class* as one of the true faults (C03/C05:
 /// "fails exactly when ..."; the numbers inside a length error are C07's business)?
 pub fn class_matches(o: &ObsErr, faults: &[RFault]) -> bool {
